@@ -19,17 +19,19 @@ def run(prop, wd, thorough):
     streams = 2 if prop == 'C12' or thorough else 1
     ticks = 3 if (thorough or streams == 1) else 2
     cfg = os.path.join(wd, 'NucleoMC.cfg')
-    open(cfg, 'w').write('SPECIFICATION Spec\nCONSTANTS N = 2\n MaxStreams = %d\n MaxTicks = %d\n MaxEdits = 1\n SortInflight = TRUE\nINVARIANTS %s\nCHECK_DEADLOCK FALSE\n'
-                         % (streams, ticks, ' '.join(INVS[prop])))
-    rc, out = tlc('Nucleo.tla', cfg=cfg, workers=NCPU, timeout=6000, xmx='24g', extra=['-coverage', '1'])
+    edits = 2 if streams == 1 else 1      # two edits reach the rescoring of placeholders left by a cancelled run
+    open(cfg, 'w').write('SPECIFICATION Spec\nCONSTANTS N = 2\n MaxStreams = %d\n MaxTicks = %d\n MaxEdits = %d\n SortInflight = TRUE\n Pats = {0, 1, 2, 3}\n Appendable = {0, 1, 2, 3}\nINVARIANTS %s\nCHECK_DEADLOCK FALSE\n'
+                         % (streams, ticks, edits, ' '.join(INVS[prop])))
+    rc, out = tlc('NucleoMC.tla', cfg=cfg, workers=NCPU, timeout=6000, xmx='24g', extra=['-coverage', '1'])
     st = tlc_stats(out)
     if tlc_failed(rc, out) or not st['completed'] or 'is violated' in out:
-        die_tool('Nucleo.tla: protocol model violates its invariant or did not finish (oracle defect, not a verdict)\n' + out[-3000:])
+        die_tool('NucleoMC.tla: protocol model violates its invariant or did not finish (oracle defect, not a verdict)\n' + out[-3000:])
     acts = coverage_actions(out)
-    never = [a for a, c in acts.items() if a[0].isupper() and c['generated'] == 0 and a not in ('Init',) and not (a == 'Restart' and streams == 1)]
+    never = [a for a, c in acts.items() if a[0].isupper() and c['generated'] == 0 and a not in ('Init',) and not (a == 'Restart' and streams == 1) and not (a == 'RescorePh' and edits == 1)
+             and a not in ('Drop', 'RunEndThenTickLock', 'Next')]
     if never:
-        die_tool('Nucleo.tla: actions never taken in the bounded model (vacuity): %s' % never)
+        die_tool('NucleoMC.tla: actions never taken in the bounded model (vacuity): %s' % never)
     return {'protocol_model_states': st['distinct'], 'protocol_model_transitions': st['generated'], 'protocol_model_depth': st['depth'],
-            'protocol_model_constants': {'N': 2, 'MaxStreams': streams, 'MaxTicks': ticks, 'MaxEdits': 1},
+            'protocol_model_constants': {'N': 2, 'MaxStreams': streams, 'MaxTicks': ticks, 'MaxEdits': edits},
             'protocol_model_invariants': INVS[prop],
             'protocol_model_action_counts': {a: c['distinct'] for a, c in acts.items() if a[0].isupper()}}, st['distinct'], st['generated']
